@@ -112,11 +112,15 @@ func IsDescendant(dirpath, testpath string) (isDescendant bool, err error) {
 
 
 func Readlink(linkname string) (string, error) {
-	buf := make([]byte, 256)
-	n, err := syscall.Readlink(linkname, buf)
-	if err != nil {
-		return "", err
+	for size := 256; ; size *= 2 {
+		buf := make([]byte, size)
+		n, err := syscall.Readlink(linkname, buf)
+		if err != nil {
+			return "", err
+		}
+		if n < size {
+			return string(buf[:n]), nil
+		}
 	}
-	return string(buf[:n]), nil
 }
 
